@@ -16,6 +16,7 @@ type ProcSpec struct {
 	R, N, M, L, O int
 	Ops           []string // opcode names (sorted by Build)
 	Prog          []string // assembly lines
+	Shared        string   `json:",omitempty"` // Arch.Shared_constraints (shared objects the opcodes of Prog talk to)
 }
 
 // BMSpec describes a whole machine as data.
@@ -76,6 +77,7 @@ func BuildProc(rsize int, ps ProcSpec) (*procbuilder.Machine, error) {
 	}
 	sort.Sort(procbuilder.ByName(ops))
 	a.Op = ops
+	a.Shared_constraints = ps.Shared
 	prog, err := a.Assembler([]byte(strings.Join(ps.Prog, "\n") + "\n"))
 	if err != nil {
 		return nil, err
